@@ -46,7 +46,7 @@ def body_store_etags(c0, c1, c2, target, body):
 def h_store_etags(c0: bytes, c1: bytes, c2: bytes, target: int, body: bytes) -> bool:
     """
     pre: len(c0) <= ctx.b.blen and len(c1) <= ctx.b.blen and len(c2) <= ctx.b.blen and len(body) <= ctx.b.blen
-    pre: 0 <= target < ctx.b.n + 3
+    pre: 0 <= target < ctx.b.n + 4
     post: _
     """
     return run(body_store_etags, c0, c1, c2, target, body)
@@ -165,6 +165,21 @@ def h_read_overlap(c0: bytes, bodyB: bytes, method_head: bool) -> bool:
     return run(body_read_overlap, c0, bodyB, method_head)
 
 
+def body_query_views(k2, s1, d1, s2, d2, text, start, end):
+    """calendar-query answers (getetag + calendar-data), repeated and interleaved on one long-lived store with the
+    index warming up: every response pairs the member's own etag with the member's own bytes."""
+    from xv.harness import C11
+    return C11.body_report_history(0, s1, d1, k2, s2, d2, 0, text, start, end)
+
+
+def h_query_views(k2: int, s1: str, d1: int, s2: str, d2: int, text: str, start: int, end: int) -> bool:
+    """
+    pre: 0 <= k2 <= 1 and start < end and max(len(s1), len(s2), len(text)) <= 2
+    post: _
+    """
+    return run(body_query_views, k2, s1, d1, s2, d2, text, start, end)
+
+
 def body_quoting(e):
     if '"' in e:
         return (True, "pre-invalid")
@@ -208,6 +223,13 @@ HARNESSES = [
                      "a PUT: the ETag served is the id of the bytes served",
             encodes=["xandikos.web.ObjectResource.get_file", "xandikos.web.ObjectResource.get_body",
                      "xandikos.webdav._do_get", "xandikos.caldav.CalendarDataProperty.get_value_ext"]),
+    Harness("query_views", h_query_views, body_query_views, classes=[("a2-b2", ("comp", "comp-range"))],
+            parts={"quick": [("comp", "comp-range"), ("comp-range", "prop-present")]}, budget={"quick": 100, "thorough": 400},
+            per_path_timeout={"quick": 60, "thorough": 120},
+            describe="six calendar-query REPORTs (index threshold 0, one long-lived store): each response carries the "
+                     "member's own etag together with the member's own calendar-data; part = (filter A, filter B)",
+            encodes=["xandikos.caldav.CalendarQueryReporter.report", "xandikos.store.Store._iter_with_filter_indexes",
+                     "xandikos.web.CalendarCollection.calendar_query", "xandikos.davcommon.get_properties_with_data"]),
     Harness("quoting", h_quoting, body_quoting, classes=["roundtrip"], bounds=_B, budget={"quick": 30, "thorough": 120},
             describe="extract_strong_etag(create_strong_etag(e)) == e for every e without a double quote",
             encodes=["xandikos.web.create_strong_etag", "xandikos.web.extract_strong_etag"]),
